@@ -308,12 +308,14 @@ func initializeSensors(controllers []*hwmon.HwMonController) error {
 					return fmt.Errorf("failed to match platform regex of %s (%s) against controller platform %s: %v", config.ID, config.HwMon.Platform, c.Platform, err)
 				}
 				if matched {
-					found = true
-					config.HwMon.TempInput = c.Sensors[config.HwMon.Index].Input
+					if hwmonSensor, exists := c.Sensors[config.HwMon.Index]; exists {
+						found = true
+						config.HwMon.TempInput = hwmonSensor.Input
+					}
 				}
 			}
 			if !found {
-				return fmt.Errorf("couldn't find hwmon device with platform '%s' for sensor: %s. Run 'fan2go detect' again and correct any mistake", config.HwMon.Platform, config.ID)
+				return fmt.Errorf("couldn't find hwmon device with platform '%s' and index %d for sensor: %s. Run 'fan2go detect' again and correct any mistake", config.HwMon.Platform, config.HwMon.Index, config.ID)
 			}
 		}
 
